@@ -76,6 +76,7 @@ func (b *c20BP) CanAcceptIndentedLine() bool                                { re
 type c20IP struct {
 	name   string
 	accept bool
+	wander bool // script 2: move the reader forward and then decline (the caller has to put it back)
 	log    *[]string
 }
 
@@ -93,7 +94,16 @@ func c20InlineTrig(name string) []byte {
 
 func (p *c20IP) Trigger() []byte { return c20InlineTrig(p.name) }
 func (p *c20IP) Parse(parent ast.Node, block text.Reader, pc parser.Context) ast.Node {
-	*p.log = append(*p.log, p.name)
+	// the log records where the parser was started: every parser tried for one trigger byte must see that byte
+	_, seg := block.PeekLine()
+	*p.log = append(*p.log, fmt.Sprintf("%s@%d", p.name, seg.Start))
+	if p.wander {
+		block.Advance(1)
+		if l, _ := block.PeekLine(); len(l) > 1 {
+			block.Advance(1)
+		}
+		return nil
+	}
 	if !p.accept {
 		return nil
 	}
@@ -189,7 +199,7 @@ func (c c20Cfg) build(log *[]string) goldmark.Markdown {
 			}
 			po = parser.WithBlockParsers(util.Prioritized(&c20BP{name: k.Name, trig: trig, accept: k.Script == 1, log: log}, k.Prio))
 		case "inline":
-			po = parser.WithInlineParsers(util.Prioritized(&c20IP{name: k.Name, accept: k.Script == 1, log: log}, k.Prio))
+			po = parser.WithInlineParsers(util.Prioritized(&c20IP{name: k.Name, accept: k.Script == 1, wander: k.Script == 2, log: log}, k.Prio))
 		case "paragraph":
 			po = parser.WithParagraphTransformers(util.Prioritized(&c20PT{name: k.Name, log: log}, k.Prio))
 		case "ast":
@@ -301,7 +311,7 @@ func modelInline(c c20Cfg) []string {
 				if bytes.IndexByte(c20InlineTrig(k.Name), ch) < 0 {
 					continue
 				}
-				log = append(log, k.Name)
+				log = append(log, fmt.Sprintf("%s@%d", k.Name, i))
 				if k.Script == 1 {
 					break
 				}
@@ -558,9 +568,9 @@ func runC20(r *core.Run) {
 		{"block", core.Pick(r, []string{"BT1", "BT2", "BF1", "BF2"}, []string{"BT1", "BT2", "BF1", "BF2", "BF3"}), 2,
 			[]string{"$x\n", "para\n$x\n", "plain\n", "$x\n\n$y\nz\n", "plain\n\n$x\n"},
 			"block parsers BT* (trigger '$') and BF* (no trigger), each scripted to accept or decline; the Open log must equal: per line, triggered parsers ascending, then trigger-less parsers ascending merged with the built-in paragraph parser (1000), first acceptor wins"},
-		{"inline", core.Pick(r, []string{"IT1", "IT2", "IT3"}, []string{"IT1", "IT2", "IT3", "IT4"}), 2,
+		{"inline", core.Pick(r, []string{"IT1", "IT2", "IT3"}, []string{"IT1", "IT2", "IT3", "IT4"}), 3,
 			[]string{"a$b\n", "$\n", "$$ \\$ $\n", "a\n$\n", "a$b%c\n", "%$%\n"},
-			"inline parsers IT1/IT4 on triggers '$' and '%', IT2 on '$', IT3 on '%', each scripted to accept (consume one byte) or decline; the Parse log must equal: per unescaped trigger byte, the parsers registered for that byte in ascending priority until the first accepts"},
+			"inline parsers IT1/IT4 on triggers '$' and '%', IT2 on '$', IT3 on '%', each scripted to accept (consume one byte), decline, or move the reader forward and then decline; the Parse log (parser name and the source offset it was started at) must equal: per unescaped trigger byte, the parsers registered for that byte in ascending priority, each started at that byte, until the first accepts"},
 		{"paragraph", []string{"PT1", "PT2", "PT3"}, 1,
 			[]string{"a\n", "a\n\nb\n", "[l]: /u\n\nb\n"},
 			"paragraph transformers; the Transform log must equal: per paragraph, ascending priority, the built-in reference-definition transformer at 100 ending the chain for a paragraph it removes"},
@@ -644,7 +654,7 @@ func c20Shared(s *core.Sub, c c20Cfg) {
 			}
 			return util.Prioritized(&c20BP{name: k.Name, trig: trig, accept: k.Script == 1, log: log}, k.Prio)
 		case "inline":
-			return util.Prioritized(&c20IP{name: k.Name, accept: k.Script == 1, log: log}, k.Prio)
+			return util.Prioritized(&c20IP{name: k.Name, accept: k.Script == 1, wander: k.Script == 2, log: log}, k.Prio)
 		case "paragraph":
 			return util.Prioritized(&c20PT{name: k.Name, log: log}, k.Prio)
 		}
@@ -677,7 +687,7 @@ func c20Shared(s *core.Sub, c c20Cfg) {
 			}
 			v = util.Prioritized(&c20BPInd{c20BP{name: kk.Name, trig: trig, accept: kk.Script == 1}, &cur}, kk.Prio)
 		case "inline":
-			v = util.Prioritized(&c20IPInd{c20IP{name: kk.Name, accept: kk.Script == 1}, &cur}, kk.Prio)
+			v = util.Prioritized(&c20IPInd{c20IP{name: kk.Name, accept: kk.Script == 1, wander: kk.Script == 2}, &cur}, kk.Prio)
 		case "paragraph":
 			v = util.Prioritized(&c20PTInd{kk.Name, &cur}, kk.Prio)
 		default:
